@@ -7,6 +7,9 @@ import (
 	"net/http"
 	"net/url"
 	"time"
+	"errors"
+	"io"
+	"strings"
 )
 
 func stub() { panic("verifnd: symbolic stub executed natively") }
@@ -72,3 +75,30 @@ func Request(method, target string, form url.Values, basicUser, basicPass string
 
 // Debugf records a diagnostic line in native runs; ignored symbolically.
 func Debugf(format string, args ...any) { stub() }
+
+// ---- scripted HTTP transport (plain Go in both variants: executed symbolically and natively) ----
+
+// RT is an http.RoundTripper whose k-th answer is decided by the harness (Respond draws what it
+// wants from this package); every request is journalled.
+type RT struct {
+	Respond func(k int, r *http.Request) (status int, body string, fail bool)
+	Calls   []*http.Request
+}
+
+func (t *RT) RoundTrip(r *http.Request) (*http.Response, error) {
+	k := len(t.Calls)
+	t.Calls = append(t.Calls, r)
+	status, body, fail := t.Respond(k, r)
+	if fail {
+		return nil, errRT
+	}
+	return &http.Response{StatusCode: status, Status: "scripted", Body: io.NopCloser(strings.NewReader(body)), Header: http.Header{}, Request: r}, nil
+}
+
+var errRT = errors.New("verifnd: scripted transport failure")
+
+// NewHTTPClient returns a client with its own scripted transport.
+func NewHTTPClient(respond func(k int, r *http.Request) (int, string, bool)) (*http.Client, *RT) {
+	rt := &RT{Respond: respond}
+	return &http.Client{Transport: rt}, rt
+}
